@@ -54,11 +54,12 @@ CHECKS = {
     },
     "C15": {
         "jobs": [{"variant": "asan_cm1_dm0", "workload": "w1", "focus": "C15", "share": 0.6, "chunk": 5},
-                 {"variant": "asan_cm1_dm0", "workload": "w2", "focus": "C15", "share": 0.4, "chunk": 25}],
+                 {"variant": "asan_cm1_dm0", "workload": "w2", "focus": "C15", "share": 0.2, "chunk": 25},
+                 {"variant": "asan_cm1_dm0", "workload": "w3", "focus": "C15", "share": 0.2, "chunk": 20}],
         "budget": {"quick": 75, "thorough": 1200},
         "crash_kinds": {"deadlock": "deadlock"},
         "rule": "one case = one non-interacting tissue run twice: on a team of 2-16 under a drawn schedule (rtc, permuted rtc, PCT depth 1-6, random walk, starvation) and on a team of one; population hashes (positions, momenta, connectivity; order independent) must agree after every iteration; plus refine_meshes on a team versus sequential refinement of copies; distinct = distinct event-log hash; non-trivial = at least 3 iterations",
-        "expect_probes": ["team_differential_runs", "refine_all", "divisions"],
+        "expect_probes": ["team_differential_runs", "refine_all", "divisions", "team_division_runs", "simultaneous_divisions"],
         "assumptions": COMMON_ASSUME + ["instruction-level races need the TSan free-running mode (not part of this check yet)"],
     },
     "C06": {
@@ -85,5 +86,15 @@ CHECKS = {
         "rule": "one case = one generated tissue (1-5 jittered ellipsoid cells of all types; separated, touching or overlapping; growth / division / removal scenarios) executed twice under the same seed, team, schedule and frozen clock: as generated and translated by t (classes: 0.1 L, 10 L, 300 L, across the origin, whole voxels of the contact grid); after every iteration cell count, ids, connectivity, positions (minus t), volumes and pressures must agree; a mismatch counts only if an independently drawn t' of the same class mismatches too; distinct = distinct reference trajectory hash; non-trivial = at least 3 compared iterations of a stable reference run",
         "expect_probes": ["pairs_compared", "stopped_at_first_division"],
         "assumptions": COMMON_ASSUME + ["tolerances: positions 1e-7 L + 64 ulp(|t|) + 50 L eps (|t|/L)^3, volumes/pressures 1e-7 + 4000 eps (|t|/L)^3 relative (the code sums volume terms about the origin)", "trajectories are compared up to and including the population right after the first division: the daughters share their interface exactly and contact decisions between coincident nodes are ties decided by rounding noise", "generator shapes are jittered ellipsoids (a symmetric mesh makes the division axis and plane/edge intersections degenerate)", "reference runs that end in an instability exception are discarded"],
+    },
+    "C09": {
+        "jobs": [{"variant": "asan_cm1_dm0", "workload": "w3", "focus": "C09", "share": 0.7, "chunk": 20},
+                 {"variant": "asan_cm1_dm0", "workload": "w1", "focus": "C09", "share": 0.3, "chunk": 6}],
+        "budget": {"quick": 75, "thorough": 1200},
+        "also": [],
+        "crash_kinds": {"terminate": "exception_escaped.terminate", "step_budget": "liveness.step_budget"},
+        "rule": "one case = 1-3 mothers divided one by one through divide_cell, or 2-10 cells through cell_divider::run on a team of 1-8 (all generator shapes incl. meshes symmetric about the division plane, axis natural / +-x,+-y,+-z / random, l_min 0.1-0.3 R, jumping clock), optionally with one exception injected at the k-th call of a pipeline stage (add_intersection_points, divide_faces, triangulate_division_interface, create_daughter_cells, compute_poisson_point_cloud, refine_mesh, rebase, initialize_cell_properties); plus divisions occurring inside W1 tissue runs; distinct = distinct hash of the resulting daughters; non-trivial = at least one division attempted",
+        "expect_probes": ["division_succeeded", "division_failed_naturally", "division_failed_injected", "simultaneous_divisions"],
+        "assumptions": COMMON_ASSUME + ["volume tolerance 0.02 + 3.5 (l_min/R_eff)^2, calibrated once on the unchanged tree (max observed error ~2.2 (l_min/R)^2) and frozen", "daughter nodes may lie up to l_max on the far side of the plane (refinement after the cut merges edges)"],
     },
 }
